@@ -152,8 +152,11 @@ class Sandbox:
                 if os.path.islink(p):
                     out[rel] = 'link:' + os.readlink(p)
                 else:
-                    with open(p, 'rb') as f:
-                        out[rel] = hashlib.sha256(f.read()).hexdigest()
+                    try:
+                        with open(p, 'rb') as f:
+                            out[rel] = hashlib.sha256(f.read()).hexdigest()
+                    except OSError as e:
+                        out[rel] = 'unreadable:%d' % e.errno      # e.g. a path longer than PATH_MAX
         return dict(sorted(out.items()))
 
     def read(self, rel):
